@@ -24,6 +24,22 @@ def pSigma (n : Nat) : P (Sigma Float n) := do
   | "SV" => return .vec (← pVec n)
   | _ => throw s!"sigma? {t}"
 
+/-- The `sigma` argument of the landmark (DTC) family, typed by the number of CELLS `n`.  A vector travels with
+    its length (`SVL len values…`); a vector of any other length than `n` cannot be expressed in the model and is
+    returned as its length (`Sum.inr len`), for the handler to refuse. -/
+def pSigmaCells (n : Nat) : P (Sigma Float n ⊕ Nat) := do
+  let t ← tok
+  match t with
+  | "SN" => return .inl .none
+  | "SS" => return .inl (.scalar (← pFlt))
+  | "SVL" =>
+    let len ← pNat
+    if len = n then return .inl (.vec (← pVec n))
+    else
+      let _ ← pVec len
+      return .inr len
+  | _ => throw s!"sigma? {t}"
+
 def pOptAny : P (Option (AnyMat Float)) := do
   let t ← tok
   match t with
@@ -86,7 +102,7 @@ def handleCond : Handler := fun op =>
     let cc ← pNat
     let Y ← pMat n cc
     let mu ← pFlt
-    let sigma ← pSigma m
+    let sigma? ← pSigmaCells n
     let jit ← pFlt
     let ycf ← pOptAny
     let yIsMean ← pBool
@@ -94,9 +110,20 @@ def handleCond : Handler := fun op =>
     let q ← pNat
     let Xq ← pMat q d
     if !c.WF d then return "err wf"
-    match lmCondInit c X Xu Y mu sigma jit ycf yIsMean withUnc with
-    | .error e => return errName e
-    | .ok s => return evalState s Xq
+    match sigma? with
+    | .inr _ =>
+      -- a sigma vector whose length is not the number of cells: in the per-cell branch (`not y_is_mean`, no explicit
+      -- factor) the implementation refuses it ("The per-cell `sigma` has … entries but there are … cells") once the
+      -- landmark kernel has been factorised; outside that branch the case is not modelled.
+      if !yIsMean && ycf.isNone then
+        match getL c Xu jit Option.none with
+        | .error e => return errName e
+        | .ok _ => return errName .noiseShape
+      else return "err sigma-length-not-modelled"
+    | .inl sigma =>
+      match lmCondInit c X Xu Y mu sigma jit ycf yIsMean withUnc with
+      | .error e => return errName e
+      | .ok s => return evalState s Xq
   | "lmcholcond" => some do
     let c ← pCov
     let m ← pNat; let d ← pNat
